@@ -67,11 +67,19 @@ def check(run):
                 "empty", "meta_get", f"seeded_key_gen {hx(bytes(rng.getrandbits(8) for _ in range(8)))}",
                 f"hash {hx(bytes(rng.getrandbits(8) for _ in range(rng.choice([0, 5, 200]))))}",
                 f"poseidon {(le(2, 8) + le(rand_fr(rng), 32) + le(rand_fr(rng), 32)).hex()}", f"recover {hx(M['msg'])} {hx(M['msg'])}"]
+    # a hot loop of CHEAP read-only calls with different arguments (membership proofs / leaves / subtree roots of different
+    # positions): the expensive calls above overlap rarely, a race on per-instance state needs thousands of overlapping calls
+    hot = []
+    positions = [0, 1, 0x20, 0x21, 0x23, 0x27, M["member"].index, (1 << 20) - 1]
+    for _ in range(500 if quick else 5000):
+        hot += [f"get_proof {hex(rng.choice(positions))}", f"get_leaf {hex(rng.choice(positions))}", f"get_proof {hex(rng.choice(positions))}",
+                f"sub_root {rng.randint(0, 20)} {hex(rng.choice(positions))}", "root"]
     with tempfile.TemporaryDirectory(dir=core.VERIF) as td:
-        sp, op = os.path.join(td, "setup.ops"), os.path.join(td, "ops.ops")
+        sp, op, hp = os.path.join(td, "setup.ops"), os.path.join(td, "ops.ops"), os.path.join(td, "hot.ops")
         open(sp, "w").write("\n".join(setup) + "\n")
         open(op, "w").write("\n".join(ops) + "\n")
-        for n in ((8,) if quick else (2, 8, 32)):
+        open(hp, "w").write("\n".join(hot) + "\n")
+        for n, op, ops in [(n, op, ops) for n in ((8,) if quick else (2, 8, 32))] + [(n, hp, hot) for n in ((8,) if quick else (3, 8, 16))]:
             try:
                 p = subprocess.run([zkh, "shared", str(n), sp, op], stdout=subprocess.PIPE, stderr=subprocess.PIPE, timeout=900)
                 out = p.stdout.decode().splitlines()
@@ -86,14 +94,14 @@ def check(run):
                                "detail": f"{n} concurrent read-only callers on one instance disagree with the sequential results or crashed: {detail}",
                                "impl_args": ["shared", str(n)]})
     # ---------------------------------------------------------------- (3) drop and re-create on the same location
-    p = subprocess.run([zkh, "reopen_loop", "12" if quick else "100"], stdout=subprocess.PIPE, stderr=subprocess.PIPE, timeout=1800)
+    p = subprocess.run([zkh, "reopen_loop", "300" if quick else "3000"], stdout=subprocess.PIPE, stderr=subprocess.PIPE, timeout=1800)
     line = p.stdout.decode().strip()
     run.cov["reopen_loop"] = line
     try:
         d = dict(kv.split("=") for kv in line.split(" "))
-        if int(d["failures"]) != 0 or int(d["worst_ms"]) > 30000:
+        if int(d["failures"]) != 0 or int(d.get("lost_after_reopen", 0)) != 0 or int(d["worst_ms"]) > 30000:
             run.violation({"property": run.pid, "kind": "impl-vs-spec", "stream": "reopen-loop", "ops": ["reopen_loop"],
-                           "detail": "re-creating a tree right after dropping the previous one failed or took more than 30 s: " + line})
+                           "detail": "re-creating a tree right after dropping the previous one failed, lost flushed data, or took more than 30 s: " + line})
     except Exception:
         run.violation({"property": run.pid, "kind": "impl-vs-spec", "stream": "reopen-loop", "ops": ["reopen_loop"], "detail": "no result: " + line[:200]})
-    run.rules.append("(1) one fixed workload (batch range writes on persistent trees of depth 4/7/10 with roots and subtree roots, batch API writes, verification of real messages, full witnesses, the QAP witness map's h vector, proof values) under RAYON_NUM_THREADS = 1, 2, 4, 16: transcripts must be bit-identical, and the single-thread transcript equals model and specification; (2) 8 (thorough: 2/8/32) threads issuing the same read-only calls (three verification entry points on valid / tampered / stale-root messages, root, leaves, proofs, subtree roots, empty list, metadata, key derivation, hashing, recovery) at different offsets on ONE shared instance vs the sequential results, with a 900 s watchdog; (3) drop + re-create on the same storage location in a loop; distinct = distinct workload line")
+    run.rules.append("(1) one fixed workload (batch range writes on persistent trees of depth 4/7/10 with roots and subtree roots, batch API writes, verification of real messages, full witnesses, the QAP witness map's h vector, proof values) under RAYON_NUM_THREADS = 1, 2, 4, 16: transcripts must be bit-identical, and the single-thread transcript equals model and specification; (2) 8 (thorough: 2/8/32) threads issuing the same read-only calls (three verification entry points on valid / tampered / stale-root messages, root, leaves, proofs, subtree roots, empty list, metadata, key derivation, hashing, recovery) at different offsets on ONE shared instance vs the sequential results, plus a hot loop of thousands of cheap read-only calls (membership proofs, leaves, subtree roots of different positions) per thread, with a 900 s watchdog; (3) drop + re-create on the same storage location in a loop; distinct = distinct workload line")
